@@ -106,15 +106,30 @@ def cmpTop : List Nat → List Nat → Ordering
 
 def lt (a x : List Nat) : Bool := cmpTop a x == .lt      -- falls through to `return false`
 def le (a x : List Nat) : Bool := cmpTop a x != .gt      -- falls through to `return true`
-def gt (a x : List Nat) : Bool := !(le a x)
-def ge (a x : List Nat) : Bool := !(lt a x)
 
 /-- `operator!=`: some digit differs -/
 def ne : List Nat → List Nat → Bool
   | a :: as, x :: xs => if a != x then true else ne as xs
   | _, _ => false
 
-def eq (a x : List Nat) : Bool := !(ne a x)
+/-- the three comparisons that have a digit loop of their own (`<`, `<=`, `!=`); the translator refuses a derived
+    comparison that refers to any other, so the remaining cases are never evaluated -/
+def primCmp : Cmp → List Nat → List Nat → Bool
+  | .lt, a, x => lt a x
+  | .le, a, x => le a x
+  | .ne, a, x => ne a x
+  | _, _, _ => false
+
+/-- a derived comparison as the header writes it (`gtDef`, `geDef`, `eqDef` are regenerated from the source):
+    `!(*this c x)`, `x c *this`, `!(x c *this)` -/
+def evalCmpDef : CmpDef → List Nat → List Nat → Bool
+  | .notThisX c, a, x => !(primCmp c a x)
+  | .xThis c, a, x => primCmp c x a
+  | .notXThis c, a, x => !(primCmp c x a)
+
+def gt (a x : List Nat) : Bool := evalCmpDef gtDef a x      -- header: `!((*this)<=x)`
+def ge (a x : List Nat) : Bool := evalCmpDef geDef a x      -- header: `!((*this)<x)`
+def eq (a x : List Nat) : Bool := evalCmpDef eqDef a x      -- header: `!((*this)!=x)`
 
 def isZero (a : List Nat) : Bool := a.all (· == 0)
 
